@@ -2,6 +2,8 @@
 render events and state exactly like Model/ShellGw.v does."""
 import asyncio
 import contextlib
+import pathlib
+import voluptuous as vol
 import os
 import re
 from unittest import mock
@@ -110,6 +112,11 @@ def ihex(data):
     return "\n".join(out) + "\n"
 
 
+class PumpBlocked(BaseException):
+    """Raised by the watchdog alarm of a re-entrant-callback case (a BaseException: the library's own
+    `except Exception` around the event callback must not swallow it)."""
+
+
 class Impl:
     nested = None
     failed_saves = 0
@@ -135,7 +142,7 @@ class Impl:
             kwargs["event_callback"] = self._callback
         if cfg.get("persist"):
             kwargs["persistence"] = True
-            kwargs["persistence_file"] = cfg["persist"]
+            kwargs["persistence_file"] = pathlib.Path(cfg["persist"]) if cfg.get("persist_pathlib") else cfg["persist"]
             if cfg.get("persist_cwd"):       # relative file name: the process works in that directory
                 os.chdir(cfg["persist_cwd"])
         self.cb_raises = cfg.get("cb_raises", False)
@@ -179,14 +186,22 @@ class Impl:
     def _callback(self, msg):
         self.log.append(("CB", [msg.node_id, msg.child_id, int(msg.type), msg.ack, int(msg.sub_type), msg.payload],
                          render_tree(self.gw.sensors)))
+        if self.cfg.get("cb_reenters") and int(msg.type) == 1:
+            # an application that answers a report from INSIDE the callback (a controller call on the pump's thread)
+            try:
+                self.gw.set_child_value(msg.node_id, msg.child_id, 2, "1")
+            except (ValueError, vol.Invalid):
+                pass
         if self.cb_raises:
             raise RuntimeError("callback oracle raises")
 
     def _guard(self, fn):
         try:
             fn()
-        except (Exception, asyncio.CancelledError) as exc:  # canonicalise by class (CancelledError is a BaseException)
+        except (Exception, asyncio.CancelledError, PumpBlocked) as exc:  # canonicalise by class
             self.log.append(("R", exc_name(exc)))
+            if isinstance(exc, PumpBlocked):
+                self.stuck = True          # the pump blocked on itself: nothing further is attempted in this case
 
     def op(self, o):
         """Apply one op; return the rendered output line (events # state)."""
@@ -194,6 +209,9 @@ class Impl:
         start = len(self.log)
         kind = o[0]
         gw = self.gw
+        if getattr(self, "stuck", False):
+            self.log.append(("R", "PumpBlocked"))
+            return self.render(start)
         from mysensors import task as task_mod
         ticks = iter(range(10 ** 9))
         slow = mock.patch.object(task_mod, "timer", lambda: next(ticks) * 0.2) if self.cfg.get("slow_jobs") \
